@@ -370,6 +370,10 @@ def run(ctx):
             judge(cap, k, disc, sched, ending, await run_one(cap, k, disc, sched, ending))
             ctx.count('random_runs')
     asyncio.run(main())
+    n13 = ctx.dist.get('f13_runs_held_eq_capacity_plus_1', 0)
+    if n13:
+        ctx.notes.append('shard %d: held == capacity + 1 (F13) observed in %d runs; the first %d are recorded as failures of oracle %r, the rest only counted'
+                         % (ctx.shard[0], n13, f13_recorded[0], F13_NAME))
     sess.finish()
 
 
